@@ -29,7 +29,7 @@ def run(ctx):
     r = ctx.mc("redis", "MC_Cluster", "MC_Cluster_stable_thorough.cfg" if ctx.thorough else "MC_Cluster_stable.cfg",
                workers=8, timeout=1500, coverage=not ctx.thorough)
     if r.coverage:
-        ctx.check_vacuity(r, "Cluster", ignore=("AskSecond", "Refresh", "SetMigrating", "MigrateKey", "Finalise"))
+        ctx.check_vacuity(r, "Cluster", ignore=("AskSecond", "Refresh", "SetMigrating", "MigrateKey", "Finalise", "DialError", "Failover"))
     clusterlib.gen_and_replay(ctx, "Gen_Cluster_stable.cfg", 200 if ctx.thorough else 25, True, "stable",
                               extra=["-big"] if ctx.thorough else [])
     cfile = os.path.join(ctx.work, "cmds.ndjson")
